@@ -432,7 +432,8 @@ class Ctx:
         Props file uses  `Print Assumptions foo.`  and we re-read the file to get the order."""
         src = open(os.path.join(THEORIES, "Props", f"{self.prop}.v"), encoding="utf8").read()
         names = re.findall(r"Print\s+Assumptions\s+([A-Za-z0-9_'.]+)\s*\.", src)
-        # split coqc output into assumption reports, in order
+        # split coqc output into assumption reports, in order: a report starts at "Closed under the global context"
+        # or "Axioms:" and runs to the next such line (axiom statements may span several lines)
         reports = []
         cur = None
         for line in out.split("\n"):
@@ -442,11 +443,9 @@ class Ctx:
             elif line.startswith("Axioms:"):
                 cur = [line]
                 reports.append(cur)
-            elif cur is not None and (line.startswith(" ") or line.strip() == "" or re.match(r"^[A-Za-z_][\w.']*\s*:", line)):
+            elif cur is not None:
                 if line.strip():
                     cur.append(line)
-            else:
-                cur = None
         res = {}
         if len(reports) == len(names):
             for n, r in zip(names, reports):
